@@ -100,7 +100,7 @@ theorem step_early {s s' : State} {e : Event} (hs : step s e = .ok s') (a : Tid)
   all_goals (try subst ha)
   all_goals (try (left; rw [‹s.pc _ = _›]; exact h))
   all_goals (try (simp only [setPc_pc, upd_same, afterDeadline_pc, afterNotify_pc, childReturn_pc,
-    childWakeNext_pc, freeLoopStart_pc, enterChild_pc, leave_pc, addUser_pc, markCalled_pc,
+    childWakeNext_pc, childScanStart_pc, freeLoopStart_pc, enterChild_pc, leave_pc, addUser_pc, markCalled_pc,
     markFreeing_pc, setAfter_pc, pushObs_pc, publish_pc, delUser_pc, markBorn_pc, allocNote_pc] at h))
   all_goals (try (exact Or.inl (by rw [‹s.pc _ = _›]; exact early_of_after h)))
   all_goals (try simp only [early_afterNotifyPc, early_childReturnPc,
